@@ -34,6 +34,13 @@ Proof.
   apply read_n_app. unfold blen in H. lia.
 Qed.
 
+Lemma copy_nN_app n (b tl : bytes) l : blen b = n ->
+  copy_nN n {| rest := b ++ tl; last := l |} = Ok (b, {| rest := tl; last := l |}).
+Proof.
+  intros H. rewrite <- (read_nN_app n b tl l H). unfold copy_nN, read_nN; cbn [rest]. rewrite blen_app.
+  destruct (N.leb_spec n (blen b + blen tl)); [reflexivity|lia].
+Qed.
+
 Lemma read_num_be k v tl l : v < 256 ^ N.of_nat k ->
   read_num k {| rest := be k v ++ tl; last := l |} = Ok (v, {| rest := tl; last := l |}).
 Proof.
@@ -197,12 +204,12 @@ Proof.
     unfold x. destruct b0; cbn [Byte.eqb]; reflexivity.
   - (* bytes *)
     rewrite read_num_be by (cbn; lia). cbn [bind].
-    rewrite read_nN_app by reflexivity. cbn [bind].
+    rewrite copy_nN_app by reflexivity. cbn [bind].
     rewrite read_nN_app by apply pad8_blen_zeros. cbn [bind].
     unfold header. rewrite !blen_app, !blen_be, blen_zeros, N2Nat.id. f_equal. f_equal. f_equal. cbn. lia.
   - (* string *)
     rewrite read_num_be by (cbn; lia). cbn [bind].
-    rewrite read_nN_app by reflexivity. cbn [bind].
+    rewrite copy_nN_app by reflexivity. cbn [bind].
     rewrite read_nN_app by apply pad8_blen_zeros. cbn [bind].
     unfold header. rewrite !blen_app, !blen_be, blen_zeros, N2Nat.id. f_equal. f_equal. f_equal. cbn. lia.
   - (* time *)
